@@ -309,13 +309,39 @@ func TestC17(t *testing.T) {
 			opDesc = fmt.Sprintf("filter e %s %q inverse=%v", comp, c, inv)
 			cl := hx.StrConst("e", comp, c)
 			cl.Inverse = inv
-			res := qf.Filter(cl.Build(hx.KindMap(tab)))
 			if op == "cmp-undeclared" && declared {
+				// the error must surface from wherever in a clause tree the comparison stands
+				wrapped := cl
+				ok := hx.NoArg("e", "isnotnull")
+				wrap := rapid.SampledFrom([]string{"plain", "plain", "not(and)", "not(or)", "not(not)", "and", "or", "and(ok,x)", "or(ok,x)", "not(and(ok,x))", "or(and(x),ok)"}).Draw(t, "wrap")
+				switch wrap {
+				case "not(and)":
+					wrapped = hx.Clause{Op: "not", Kids: []hx.Clause{{Op: "and", Kids: []hx.Clause{cl}}}}
+				case "not(or)":
+					wrapped = hx.Clause{Op: "not", Kids: []hx.Clause{{Op: "or", Kids: []hx.Clause{cl}}}}
+				case "not(not)":
+					wrapped = hx.Clause{Op: "not", Kids: []hx.Clause{{Op: "not", Kids: []hx.Clause{cl}}}}
+				case "and":
+					wrapped = hx.Clause{Op: "and", Kids: []hx.Clause{cl}}
+				case "or":
+					wrapped = hx.Clause{Op: "or", Kids: []hx.Clause{cl, cl}}
+				case "and(ok,x)":
+					wrapped = hx.Clause{Op: "and", Kids: []hx.Clause{ok, cl}}
+				case "or(ok,x)":
+					wrapped = hx.Clause{Op: "or", Kids: []hx.Clause{ok, cl}}
+				case "not(and(ok,x))":
+					wrapped = hx.Clause{Op: "not", Kids: []hx.Clause{{Op: "and", Kids: []hx.Clause{ok, cl}}}}
+				case "or(and(x),ok)":
+					wrapped = hx.Clause{Op: "or", Kids: []hx.Clause{{Op: "and", Kids: []hx.Clause{cl}}, ok}}
+				}
+				opDesc += " wrapped as " + wrap
+				res := qf.Filter(wrapped.Build(hx.KindMap(tab)))
 				if res.Err == nil {
 					t.Fatalf("filtering a declared enum against an undeclared constant must be an error\n%s", full())
 				}
 				break
 			}
+			res := qf.Filter(cl.Build(hx.KindMap(tab)))
 			if res.Err != nil {
 				t.Fatalf("filter failed: %v\n%s", res.Err, full())
 			}
